@@ -5,7 +5,7 @@ from .. import env, coq, runner, gates, opsem
 
 LEVEL = 'translation_validation'
 META = dict(
-    text='Coq theorems (20, axiom-free): the MappingManager model (two arrays, apply_swap) keeps phys_to_log o log_to_phys = id for every swap sequence and a swap applied twice restores the mapping; the routing certificate checker route_ok is sound: an accepted routed list is exactly the emission, under mapped_op/apply_swap, of a logical stream that is trace-equivalent to the input, every two-qubit operation lies on a graph edge, the tracked mapping equals the reported swap map, the reported swap map of an accepted certificate is a permutation of all placed physical qubits (used by the circuit or not; route_ok_final_perm), and (route_ok_sem, over every ring with the laws, any number of qubits, any matrices) the routed circuit read through the final mapping computes the original circuit on the initial state read through the initial mapping; the CNOT.(HxH).CNOT.(HxH).CNOT block emitted on one-way edges equals SWAP exactly; Gateset.__contains__ (dictionary fast paths + scans) decides "some family accepts", type families follow isinstance along the mro, tag lists behave as documented, CircuitOperations are accepted iff unrolled and all inner operations are; device_accepts <-> in gateset /\\ qubits on device /\\ allowed pairs. On every run (translation validation of real outputs): optimize_for_target_gateset for 18 configurations of the CZ, sqrt-iSWAP, Sycamore, Google CZ, IonQ API/native, AQT and Pasqal targets on generated circuits: every output operation is accepted (gateset.validate, recomputed by the membership model inside Coq), input and output unitaries agree up to global phase (evaluated in Coq from each operation\'s own matrix), the input is unmodified; RouteCQC outputs over random connected (di)graphs and initial mappers pass route_ok (exact, vm_compute) and independently satisfy U_routed ~ P(swap_map) . U_ref; the real MappingManager arrays equal the model after random swap sequences; Gateset/GateFamily membership answers equal the model on ~16000 item x gateset pairs; GridDevice / AQT / Pasqal / IonQ validate_operation accepts exactly when the statement (and the device model) says so, and GridDevice (built from metadata and from DeviceSpecification protos) / IonQ validate_circuit accepts exactly the circuits all of whose operations are acceptable one by one (ordered pairs of tag / qubit variants of one gate); every library gate standing alone on its qubits, at every special exponent, is compiled for every target and compared in Coq.',
+    text='Coq theorems (23, axiom-free): the MappingManager model (two arrays, apply_swap) keeps phys_to_log o log_to_phys = id for every swap sequence and a swap applied twice restores the mapping; the routing certificate checker route_ok is sound: an accepted routed list is exactly the emission, under mapped_op/apply_swap, of a logical stream that is trace-equivalent to the input, every two-qubit operation lies on a graph edge, the tracked mapping equals the reported swap map, the reported swap map of an accepted certificate is a permutation of all placed physical qubits (used by the circuit or not; route_ok_final_perm), and (route_ok_sem, over every ring with the laws, any number of qubits, any matrices) the routed circuit read through the final mapping computes the original circuit on the initial state read through the initial mapping; the CNOT.(HxH).CNOT.(HxH).CNOT block emitted on one-way edges equals SWAP exactly; Gateset.__contains__ (dictionary fast paths + scans) decides "some family accepts", type families follow isinstance along the mro, tag lists behave as documented, CircuitOperations are accepted iff unrolled and all operations of their mapped circuit are (one iteration of the mapped body decides every positive number of repetitions, zero repetitions stand for no operation, an untagged nested CircuitOperation may be spliced in; the raw body is not what is judged); device_accepts <-> in gateset /\\ qubits on device /\\ allowed pairs. On every run (translation validation of real outputs): optimize_for_target_gateset for 18 configurations of the CZ, sqrt-iSWAP, Sycamore, Google CZ, IonQ API/native, AQT and Pasqal targets on generated circuits: every output operation is accepted (gateset.validate, recomputed by the membership model inside Coq), input and output unitaries agree up to global phase (evaluated in Coq from each operation\'s own matrix), the input is unmodified; RouteCQC outputs over random connected (di)graphs and initial mappers pass route_ok (exact, vm_compute) and independently satisfy U_routed ~ P(swap_map) . U_ref; the real MappingManager arrays equal the model after random swap sequences; Gateset/GateFamily membership answers equal the model on ~16000 item x gateset pairs; GridDevice / AQT / Pasqal / IonQ validate_operation accepts exactly when the statement (and the device model) says so, and GridDevice (built from metadata and from DeviceSpecification protos) / IonQ validate_circuit accepts exactly the circuits all of whose operations are acceptable one by one (ordered pairs of tag / qubit variants of one gate); every library gate standing alone on its qubits, at every special exponent, is compiled for every target and compared in Coq; so is a single CircuitOperation standing alone on its qubits (one-operation and two-moment bodies with repetitions, negative repetitions, qubit maps, nesting, parameter resolvers), whose compiled circuit must have the unitary of the unrolled input; CircuitOperations that carry a parameter resolver (with repetitions, inversion, zero repetitions, qubit maps, nesting, tags) are judged by every gateset (also FSimGateFamily gatesets and the Sycamore device, outside the Coq model) and every GridDevice exactly as the operations of their mapped circuit are.',
     note='Trusted: Coq kernel; float instance (tolerance 2^-20 ~ 1e-6) for unitaries; the Python adapters that describe an operation abstractly (type ids along the mro, == class, the instance gates it equals up to global phase as re-derived with numpy, tags, qubit integers) and that identify operations up to their qubits; numpy oracles used only to classify a disagreement. The compilers themselves (KAK, merging, swap selection) are not modelled: their outputs are validated per generated program, so the quantifier over programs is sampled. route_ok_sem covers certificates without directed-graph pieces; for directed graphs the collapse of the tagged CNOT/H block into a SWAP rests on the exact identity directed_swap_block plus commutation with operations on other qubits (argued, not proved) and the A.6 relation is compared numerically. The choice between old and new decomposition by two-qubit count does not affect the property and is only recorded as a supporting observation.',
     technique='Rocq/Coq proofs about the mapping manager, certificate checker, membership and device models + per-program translation validation by vm_compute on real compiler and router outputs',
 )
@@ -52,6 +52,170 @@ def phase_dist(a, b):
     if abs(abs(f) - 1) > 1e-6:
         return float('inf')
     return float(np.max(np.abs(a - f * b)))
+
+
+# ---------------------------------------------------------------- CircuitOperations: what they stand for
+def show_op(cirq, op):
+    """Compact text of an operation; a CircuitOperation with its body, repetitions, qubit map and parameter resolver."""
+    u = op.untagged
+    if isinstance(u, cirq.CircuitOperation):
+        parts = ['[' + ', '.join(show_op(cirq, o) for o in u.circuit.all_operations()) + ']']
+        if u.repetitions != 1:
+            parts.append(f'repetitions={u.repetitions}')
+        if u.qubit_map:
+            parts.append('qubit_map={' + ', '.join(f'{a}: {b}' for a, b in sorted(u.qubit_map.items())) + '}')
+        if u.param_resolver.param_dict:
+            parts.append('param_resolver={' + ', '.join(f'{a}: {b if not isinstance(b, float) else round(b, 6)}' for a, b in sorted(u.param_resolver.param_dict.items(), key=str)) + '}')
+        s = 'CircuitOperation(' + ', '.join(parts) + ')'
+    else:
+        s = ' '.join(str(u).split())
+    if op.tags:
+        s += '.with_tags(' + ', '.join(repr(t) for t in op.tags) + ')'
+    return s
+
+
+def stands_for(cirq, op):
+    """The operations a (tagged) CircuitOperation stands for: its mapped circuit (body inverted for negative repetitions, qubit
+    map and parameter resolver applied, repeated), inner CircuitOperations replaced likewise."""
+    out = []
+    for o in op.untagged.mapped_circuit(deep=True).all_operations():
+        if isinstance(o.untagged, cirq.CircuitOperation):
+            out.extend(stands_for(cirq, o))
+        else:
+            out.append(o)
+    return out
+
+
+def banned_tag(cirq, gs, op):
+    return isinstance(gs, cirq.CompilationTargetGateset) and gs._intermediate_result_tag in op.tags
+
+
+def reference_accepts(cirq, gs, op, by_validate):
+    """The documented rule for one operation, a CircuitOperation being read as the operations it stands for.  Operations with a
+    gate are judged as they stand (`op in gateset`; through validate also: no intermediate-result tag); a (tagged)
+    CircuitOperation is accepted iff the gateset unrolls circuit operations and every operation of its mapped circuit is
+    accepted by validate; other gate-less operations never.  Returns (answer, the operation that decides a refusal or None)."""
+    if op.gate is not None:
+        try:
+            ok = (op in gs) and not (by_validate and banned_tag(cirq, gs, op))
+        except Exception:       # an answer that is not given is not an acceptance (reported on its own where it happens)
+            ok = False
+        return ok, (None if ok else op)
+    if banned_tag(cirq, gs, op):
+        return False, op
+    u = op.untagged
+    if not isinstance(u, cirq.CircuitOperation) or not gs._unroll_circuit_op:
+        return False, op
+    for o in u.mapped_circuit(deep=True).all_operations():
+        ok, why = reference_accepts(cirq, gs, o, True)
+        if not ok:
+            return False, why
+    return True, None
+
+
+COP_VALUES = [1, 0.5, -0.5, 2, 3, 0.25, 0]
+COP_FSIM = [(math.pi / 2, math.pi / 6), (-math.pi / 4, 0.0), (math.pi / 4, 0.0), (0.0, math.pi), (0.3, 0.2), (-math.pi / 2, 0.0)]
+
+
+def symbolic_bodies(mods, qubits):
+    """(operation with symbols s, t; resolvers): gates whose membership in instance / integer-power / FSim families depends on
+    the value the symbols take (the first resolvers make the canonical instance: X, CZ, ISWAP, the Sycamore gate, sqrt-iSWAP)."""
+    import sympy
+    cirq = mods['cirq']
+    s, t = sympy.Symbol('s'), sympy.Symbol('t')
+    pw = [{s: v} for v in COP_VALUES]
+    fs = [{s: a, t: b} for a, b in COP_FSIM]
+    one = [cirq.X ** s, cirq.Y ** s, cirq.Z ** s, cirq.H ** s, cirq.PhasedXPowGate(phase_exponent=0.25, exponent=s),
+           cirq.PhasedXZGate(x_exponent=s, z_exponent=0.25, axis_phase_exponent=0.125)]
+    two = [cirq.CZ ** s, cirq.CNOT ** s, cirq.ISWAP ** s, cirq.SWAP ** s, cirq.XX ** s, cirq.ZZ ** s]
+    out = [(g.on(qubits[0]), pw) for g in one]
+    if len(qubits) >= 2:
+        out += [(g.on(*qubits[:2]), pw) for g in two]
+        out += [(cirq.FSimGate(theta=s, phi=t).on(*qubits[:2]), fs), (cirq.PhasedFSimGate(theta=s, phi=t).on(*qubits[:2]), fs)]
+    if len(qubits) >= 3:
+        out += [((cirq.CCZ ** s).on(*qubits[:3]), pw), ((cirq.CCX ** s).on(*qubits[:3]), pw)]
+    return out
+
+
+COP_FORMS = ['reps2', 'inverse', 'reps0', 'inverse3', 'qubit_map', 'outer_resolver', 'chain', 'tagged_inner', 'tagged', 'with_native', 'with_params',
+             'unused_resolver', 'nested_inverse']
+
+
+def cop_form(cirq, rng, form, op, res, spare):
+    """One CircuitOperation around the symbolic operation `op`, the resolver `res` fixing its symbols."""
+    import sympy
+    sub = lambda *ops, **kw: cirq.CircuitOperation(cirq.FrozenCircuit(*ops), **kw)
+    qs = list(op.qubits)
+    if form == 'resolver':
+        return sub(op, param_resolver=res)
+    if form == 'reps2':
+        return sub(op, param_resolver=res, repetitions=2)
+    if form == 'inverse':
+        return sub(op, param_resolver=res, repetitions=-1)
+    if form == 'reps0':
+        return sub(op, param_resolver=res, repetitions=0)
+    if form == 'inverse3':
+        return sub(op, param_resolver=res, repetitions=-3)
+    if form == 'qubit_map':
+        # the body is written on other qubits and mapped onto the operation's
+        body = op.transform_qubits(dict(zip(qs, spare[:len(qs)])))
+        return sub(body, param_resolver=res, qubit_map=dict(zip(spare[:len(qs)], qs[::-1] if rng.random() < 0.5 else qs)))
+    if form == 'outer_resolver':
+        # the symbol sits in the inner body, the resolver on the outer CircuitOperation
+        return sub(sub(op, repetitions=rng.choice([1, 2])), param_resolver=res)
+    if form == 'chain':
+        # the inner resolver renames the symbols, the outer one fixes the new names
+        ren = {k: sympy.Symbol(f'{k}_outer') for k in res}
+        return sub(sub(op, param_resolver=ren), param_resolver={ren[k]: v for k, v in res.items()}, repetitions=rng.choice([1, 2, -1]))
+    if form == 'tagged_inner':
+        return sub(sub(op).with_tags('acc'), param_resolver=res)
+    if form == 'tagged':
+        return sub(op, param_resolver=res).with_tags(rng.choice(['acc', 'ign', NC_TAG]))
+    if form == 'with_native':
+        return sub(cirq.PhasedXZGate(x_exponent=0.5, z_exponent=0.25, axis_phase_exponent=0.125).on(qs[0]), op, param_resolver=res)
+    if form == 'with_params':
+        return sub(op).with_params(res).repeat(rng.choice([1, 3]))
+    if form == 'unused_resolver':
+        # a body without symbols under a resolver that names another symbol
+        return sub(cirq.resolve_parameters(op, res), param_resolver={sympy.Symbol('unused'): 0.5})
+    if form == 'nested_inverse':
+        return sub(sub(op, repetitions=-1), param_resolver=res, repetitions=-1)
+    if form == 'unresolved':
+        return sub(op, repetitions=rng.choice([1, 2]))
+    if form == 'partial':
+        keep = sorted(res, key=str)[0]
+        return sub(op, param_resolver={keep: res[keep]})
+    raise KeyError(form)
+
+
+COP_KEY_BODIES = ('X**s', 'CZ**s', 'ISWAP**s', 'FSimGate', 'CCZ**s')
+
+
+def circuit_op_grid(mods, rng, qubits, spare, full=False):
+    """CircuitOperations carrying a parameter resolver.  Fixed on every run: for the key bodies (X**s, CZ**s, ISWAP**s, FSimGate(s, t),
+    CCZ**s) every value under a plain resolver and every other form (repetitions, inversion, zero repetitions, qubit map, resolver on
+    an outer CircuitOperation, symbols renamed through two levels, tags, beside a native operation, with_params, ...) at the value(s)
+    that make the canonical instance (X, CZ, ISWAP / sqrt-iSWAP, the Sycamore gate / sqrt-iSWAP); for the other bodies the values
+    1 and 0.5 and one drawn value, and three forms in rotation; the still-symbolic and the partly resolved body.  full: everything.
+    (form, value index, operation)."""
+    cirq = mods['cirq']
+    out = []
+    for bi, (op, resolvers) in enumerate(symbolic_bodies(mods, qubits)):
+        key = full or any(str(op).startswith(k) or k in repr(op.gate)[:14] for k in COP_KEY_BODIES)
+        second = 1 if len(resolvers[0]) == 2 or 'ISWAP' in str(op) else 0
+        for vi, res in enumerate(resolvers):
+            if key or vi in (0, 1) or vi == 2 + (bi + rng.randrange(5)) % 5:
+                out.append(('resolver', vi, cop_form(cirq, rng, 'resolver', op, res, spare)))
+        for fi, form in enumerate(COP_FORMS):
+            if not key and (fi + bi) % 4:
+                continue
+            picks = list(range(len(resolvers))) if full else sorted({0, second, rng.randrange(len(resolvers)) if key and (bi + fi) % 3 == 0 else 0})
+            for vi in picks:
+                out.append((form, vi, cop_form(cirq, rng, form, op, resolvers[vi], spare)))
+        out.append(('unresolved', -1, cop_form(cirq, rng, 'unresolved', op, resolvers[0], spare)))
+        if len(resolvers[0]) == 2:
+            out.append(('partial', 0, cop_form(cirq, rng, 'partial', op, resolvers[0], spare)))
+    return out
 
 
 # ---------------------------------------------------------------- targets
@@ -423,6 +587,134 @@ def lone_gate_stream(ctx, mods, checks, full):
                                f'optimize_for_target_gateset({tname}) changed the unitary of the lone gate {gate!r} ({placement})', dict(signature=f'compile:{tname}:lone:unitary', **rec)))
 
 
+# ---- a single CircuitOperation standing alone on its qubits: repetitions, inversion, qubit maps, nesting, parameter resolvers
+SUB_FORMS_1 = ['reps2', 'reps3', 'reps5', 'inverse', 'inverse2', 'qubit_map', 'nested_reps', 'nested_inner_reps', 'nested_map', 'resolver', 'tagged_reps', 'two_moments', 'plain', 'reps0']
+SUB_FORMS_2 = ['reps2', 'reps3', 'inverse', 'qubit_swap', 'qubit_map', 'nested_reps', 'nested_inner_reps', 'resolver']
+
+
+def sub_circuit_form(cirq, rng, form, gate, own, other):
+    """One CircuitOperation whose body is the single operation gate.on(own) (written on `other` qubits where a qubit map is part
+    of the form); `other` are further qubits of the circuit."""
+    import sympy
+    sub = lambda *ops, **kw: cirq.CircuitOperation(cirq.FrozenCircuit(*ops), **kw)
+    op = gate.on(*own)
+    k = len(own)
+    away = gate.on(*other[:k]) if len(other) >= k else gate.on(*own[::-1])
+    away_map = dict(zip(other[:k], own)) if len(other) >= k else dict(zip(own[::-1], own))
+    if form == 'plain':
+        return sub(op)
+    if form in ('reps2', 'reps3', 'reps5', 'reps0'):
+        return sub(op, repetitions=int(form[4:]))
+    if form == 'inverse':
+        return sub(op, repetitions=-1)
+    if form == 'inverse2':
+        return sub(op, repetitions=-2)
+    if form == 'qubit_map':
+        # body written on other qubits of the circuit, mapped onto its own
+        return sub(away, qubit_map=away_map, repetitions=rng.choice([1, 2]))
+    if form == 'qubit_swap':
+        return sub(op, qubit_map={own[0]: own[1], own[1]: own[0]})
+    if form == 'nested_reps':
+        return sub(sub(op), repetitions=3)
+    if form == 'nested_inner_reps':
+        return sub(sub(op, repetitions=2), repetitions=-1)
+    if form == 'nested_map':
+        return sub(sub(away, repetitions=rng.choice([1, -1])), qubit_map=away_map, repetitions=2)
+    if form == 'resolver':
+        s = sympy.Symbol('s')
+        return sub((gate ** s).on(*own), param_resolver={s: rng.choice([0.5, -1, 2, 0.25])}, repetitions=rng.choice([1, 2, -1]))
+    if form == 'tagged_reps':
+        return sub(op, repetitions=2).with_tags('user_tag')
+    if form == 'two_moments':
+        return sub(op, (cirq.Z ** 0.25).on(own[0]), repetitions=2)
+    raise KeyError(form)
+
+
+def sub_circuit_cases(mods, rng, tname, ti, full):
+    """(form, gate, placement, circuit, qubits, tagged) for one target: every form x the one-qubit bodies (H and sqrt(X) on every run, the
+    others in rotation; all when full) and the two-qubit bodies in rotation.  Placements: the CircuitOperation is the whole circuit; it stands
+    alone on its qubit(s) while the other qubits carry other gates; it has a unitary neighbour on its qubit (and is merged with it); it stands
+    next to a no-compile tagged native operation."""
+    cirq, cg = mods['cirq'], mods['cirq_google']
+    one = [cirq.H, cirq.X ** 0.5, cirq.T, cirq.Y ** 0.3, cirq.S, cirq.PhasedXPowGate(phase_exponent=0.25, exponent=0.5), cirq.Z ** -0.25]
+    two = [cirq.CZ, cirq.CNOT, cirq.SQRT_ISWAP, cirq.ISWAP, cirq.XX ** 0.5, cirq.CZ ** 0.5, cg.SYC]
+    q = cirq.LineQubit.range(3)
+    n = 0
+    for fi, form in enumerate(SUB_FORMS_1):
+        gs1 = one if full else ([one[(ti + fi) % 7]] if form in ('plain', 'reps5', 'reps0', 'tagged_reps') else one[:2] + [one[2 + (ti + fi) % 5]])
+        for gate in gs1:
+            placement = ['spectators', 'whole', 'spectators', 'neighbour', 'spectators', 'no_compile_neighbour'][(n + rng.randrange(2)) % 6]
+            n += 1
+            own, other = [q[0]], [q[2], q[1]]
+            cop = sub_circuit_form(cirq, rng, form, gate, own, other)
+            tagged = False
+            if placement == 'whole':
+                ops = [cop] if form not in ('qubit_map', 'nested_map') else [cop, cirq.X(q[2]) ** 0.3]
+            elif placement == 'spectators':
+                ops = [cop, rng.choice([cirq.CNOT, cirq.CZ, cirq.XX ** 0.5, cirq.ISWAP ** 0.5]).on(q[1], q[2])]
+                if rng.random() < 0.5:
+                    ops.reverse()
+            elif placement == 'neighbour':
+                ops = [cop, (cirq.Z ** 0.3).on(q[0]), cirq.CNOT(q[1], q[2])]
+            else:
+                g1 = next((g for g in (native_gate(mods, tname, rng) for _ in range(40)) if cirq.num_qubits(g) == 1), None)
+                ops = [cop, cirq.CNOT(q[1], q[2])]
+                if g1 is not None:
+                    ops.insert(rng.randrange(2), g1.on(q[0]).with_tags(NC_TAG))
+                    tagged = True
+            yield form, gate, placement, cirq.Circuit(ops), q, tagged
+    for fi, form in enumerate(SUB_FORMS_2):
+        gs2 = two if full else [two[(ti + fi) % len(two)], two[(ti + 2 * fi + 3) % len(two)]]
+        for gate in dict.fromkeys(gs2):
+            placement = ['whole', 'spectators', 'neighbour'][(n + rng.randrange(2)) % 3]
+            n += 1
+            own, other = ([q[0], q[1]], [q[2], q[0]]) if rng.random() < 0.5 else ([q[2], q[1]], [q[1], q[0]])
+            cop = sub_circuit_form(cirq, rng, form, gate, own, other)
+            spare = [x for x in q if x not in own][0]
+            ops = [cop] + ([] if placement == 'whole' and form != 'qubit_map' else [(cirq.X ** 0.3).on(spare)]) + ([(cirq.Y ** 0.3).on(own[0])] if placement == 'neighbour' else [])
+            yield form, gate, placement, cirq.Circuit(ops), q, False
+
+
+def sub_circuit_stream(ctx, mods, checks, full):
+    cirq = mods['cirq']
+    rng = ctx.rng
+    for ti, tname in enumerate(TARGETS):
+        for form, gate, placement, circuit, qs, tagged in sub_circuit_cases(mods, rng, tname, ti, full):
+            # deep compilation is handed the body as written: a body with unresolved symbols is a parameterized circuit, which the
+            # property does not quantify over (the resolver form is compiled with deep=False, i.e. through the operations it stands for)
+            deep = (not tname.startswith(('ionq', 'aqt', 'pasqal'))) and form != 'resolver' and rng.random() < 0.15
+            rec = case_record(cirq, tname, 'sub_circuit', circuit, tagged, deep, 1)
+            before_json = rec['circuit_json']
+            stream = f'compile:{tname}:sub-circuit'
+            cop = next(op for op in circuit.all_operations() if isinstance(op.untagged, cirq.CircuitOperation))
+            shown = f'{show_op(cirq, cop)} ({placement}: [{", ".join(show_op(cirq, o) for o in circuit.all_operations())}])'
+            try:
+                gs, out = compile_case(mods, tname, circuit, tagged, deep, 1)
+            except Exception as e:
+                ctx.count(stream, [tname, before_json], True)
+                report_compile(ctx, mods, rec, f'optimize_for_target_gateset({tname}) raised {type(e).__name__}: {str(e)[:160]} on the sub-circuit {shown}')
+                continue
+            ctx.count(stream, [tname, before_json], True,
+                      sample=dict(target=tname, form=form, gate=repr(gate)[:60], placement=placement, output_ops=sum(1 for _ in out.all_operations())) if rng.random() < 0.01 else None)
+            if cirq.to_json(circuit) != before_json:
+                report_compile(ctx, mods, rec, f'optimize_for_target_gateset({tname}) modified its input circuit')
+            bad = [op for op in out.all_operations() if not gs.validate(op)]
+            if bad or not gs.validate(out):
+                report_compile(ctx, mods, rec, f'optimize_for_target_gateset({tname}) left {len(bad)} operation(s) the target does not accept for the sub-circuit {shown}, e.g. {show_op(cirq, bad[0])[:200] if bad else ""}')
+            if not set(out.all_qubits()) <= set(qs):
+                ctx.violation('compile:extra-qubits:CircuitOperation', f'optimize_for_target_gateset({tname}) output for the sub-circuit {shown} acts on qubits outside the input', rec)
+                continue
+            try:
+                lhs, rhs = gop_list(cirq, circuit, qs), gop_list(cirq, out, qs)
+            except Exception as e:
+                ctx.violation(f'compile:{tname}:sub-circuit:non-unitary-output', f'an output operation of optimize_for_target_gateset({tname}) has no unitary: {type(e).__name__}: {str(e)[:200]}', rec)
+                continue
+            sh = gates.nlist([2] * len(qs))
+            checks.append((stream, f'fcll_close_phase {TOL} (circ_unitary FOps {sh} {rhs}) (circ_unitary FOps {sh} {lhs})',
+                           f'optimize_for_target_gateset({tname}) changed the unitary of the sub-circuit {shown}: the compiled circuit does not have the unitary of the unrolled input',
+                           dict(signature=f'compile:{tname}:sub-circuit:unitary', **rec)))
+
+
 def compile_holds(mods, rec, circuit):
     """The three clauses of the property on one compile case, decided on the real code with numpy. Returns (holds, detail, clause)."""
     cirq = mods['cirq']
@@ -436,7 +728,15 @@ def compile_holds(mods, rec, circuit):
     bad = [op for op in out.all_operations() if not gs.validate(op)]
     same = cirq.to_json(circuit) == text
     clause = 'unitary' if d > 2e-6 else ('not-native' if bad else ('input-modified' if not same else ''))
-    return clause == '', f'max deviation up to phase {d:.3g}; unaccepted operations {len(bad)}; input unchanged {same}', clause
+    detail = f'max deviation up to phase {d:.3g}; unaccepted operations {len(bad)}; input unchanged {same}'
+    if clause == 'not-native' and rec['deep'] and all(isinstance(op.untagged, cirq.CircuitOperation) for op in bad):
+        # deep compilation kept a CircuitOperation whose body it compiled, but the operations the CircuitOperation stands for
+        # (body inverted by negative repetitions, symbols fixed by its parameter resolver) are not all accepted by the target
+        clause = 'not-native-deep-wrapper'
+        leaf = next((o for op in bad for o in stands_for(cirq, op) if not gs.validate(o)), None)
+        detail += (f'; deep=True kept {show_op(cirq, bad[0])[:300]} in the output, which stands for operations the target does not accept'
+                   + (f', e.g. {show_op(cirq, leaf)}' if leaf is not None else ''))
+    return clause == '', detail, clause
 
 
 def gate_name(op):
@@ -474,6 +774,8 @@ def confirm_compile(mods, rec):
     small, names = minimise_compile(mods, rec, clause)
     rec = dict(rec, circuit_json=cirq.to_json(small), circuit=str(small)[:1500], minimised_ops=[repr(op)[:300] for op in small.all_operations()][:8])
     sig = f'compile:{clause}:{names}' if names else f'compile:{clause}:{rec["target"]}:{rec["input_kind"]}'
+    if clause == 'not-native-deep-wrapper':
+        sig = 'compile:not-native:deep-kept-circuit-op'
     return False, detail, sig, rec
 
 
@@ -621,7 +923,9 @@ def membership_items(mods, rng):
           cirq.MatrixGate(np.diag([1, 1, 1, -1]).astype(complex)), cirq.ParallelGate(cirq.H, 2), cirq.ParallelGate(cirq.X ** 0.3, 3),
           cirq.ParallelGate(cirq.Y, 2), ci.GPIGate(phi=0.2), ci.GPI2Gate(phi=0.1), ci.MSGate(phi0=0.1, phi1=0.2), ci.ZZGate(theta=0.25),
           cirq.WaitGate(cirq.Duration(nanos=10)), cirq.X ** sympy.Symbol('a'), cirq.CZ ** sympy.Symbol('b'), cirq.ControlledGate(cirq.Z), cirq.ControlledGate(cirq.X),
-          cirq.QubitPermutationGate([1, 0]), cirq.CSWAP, cirq.ResetChannel(), cirq.depolarize(0.1), cirq.PhasedISwapPowGate(phase_exponent=0.25, exponent=0.5)]
+          cirq.QubitPermutationGate([1, 0]), cirq.CSWAP, cirq.ResetChannel(), cirq.depolarize(0.1), cirq.PhasedISwapPowGate(phase_exponent=0.25, exponent=0.5),
+          cirq.FSimGate(theta=sympy.Symbol('a'), phi=sympy.Symbol('b')), cirq.FSimGate(theta=sympy.Symbol('a'), phi=math.pi / 6),
+          cirq.PhasedXPowGate(phase_exponent=0.25, exponent=sympy.Symbol('a')), cirq.ISWAP ** sympy.Symbol('a'), cirq.H ** sympy.Symbol('a')]
     items = []
     tags = [(), (), ('native_iswap',), (NC_TAG,), ('_default_merged_k_qubit_unitaries',), (cg.PhysicalZTag(),), ('acc',), ('ign',), ('acc', 'ign'), ('other', 7)]
     for g in gs:
@@ -667,15 +971,81 @@ def extra_gatesets(mods):
     }
 
 
+def answer(f):
+    """True / False, or 'raises <Type>' when the implementation raises instead of answering."""
+    try:
+        return f()
+    except Exception as e:
+        return f'raises {type(e).__name__}'
+
+
+def fsim_gatesets(mods):
+    """Gatesets with FSimGateFamily members (not described by the Coq model): judged against the reference rule only."""
+    cirq, cg = mods['cirq'], mods['cirq_google']
+    F = cg.FSimGateFamily
+    return {
+        'fsim_family_cz_symbols': cirq.Gateset(F(gates_to_accept=[cirq.CZ], allow_symbols=True), cirq.PhasedXZGate),
+        'fsim_family_instances': cirq.Gateset(F(gates_to_accept=[cg.SYC, cirq.SQRT_ISWAP, cirq.SQRT_ISWAP_INV, cirq.CZ]), cirq.XPowGate),
+        'fsim_family_types': cirq.Gateset(F(gates_to_accept=[cirq.CZPowGate, cirq.SQRT_ISWAP], allow_symbols=True), cirq.AnyIntegerPowerGateFamily(cirq.CXPowGate)),
+        'sycamore_device_gateset': cg.Sycamore.metadata.gateset,
+    }
+
+
+SYMBOLIC_RAISES = 'membership:raises:symbolic-gate-vs-instance-family'
+
+
+def report_membership_raise(ctx, cirq, gname, it, ans):
+    """`x in gateset` / validate raised: the documented answers are True and False."""
+    leaves = stands_for(cirq, it) if isinstance(it, cirq.Operation) and isinstance(it.untagged, cirq.CircuitOperation) else [it]
+    sym = [o for o in leaves if cirq.is_parameterized(o)]
+    text = show_op(cirq, it) if isinstance(it, cirq.Operation) else repr(it)[:200]
+    if sym:
+        ctx.violation(SYMBOLIC_RAISES, (f'gateset {gname}: membership / validate of {text} raises ({ans}) instead of answering: it stands for the parameterized '
+                                        f'{show_op(cirq, sym[0]) if isinstance(sym[0], cirq.Operation) else sym[0]!r}, which an instance family of the gateset compares approximately')[:600],
+                      dict(kind='membership', gateset=gname, item=repr(it)[:400], cirq_answer=ans))
+    else:
+        stands = f', which stands for [{", ".join(show_op(cirq, o) for o in leaves[:4])}]' if leaves != [it] else ''
+        ctx.violation(f'membership:raises:{str(ans).split()[-1]}', f'gateset {gname}: membership / validate of {text}{stands} raises ({ans}) instead of answering',
+                      dict(kind='membership', gateset=gname, item=repr(it)[:400], cirq_answer=ans))
+
+
+def judge_circuit_op(ctx, cirq, gname, gs, it, ans_in, ans_val):
+    """A CircuitOperation against the reference rule (it is accepted exactly when the gateset unrolls and accepts every operation
+    of its mapped circuit).  Returns 'new' / 'known' when a failing input was reported, else False."""
+    want, why = reference_accepts(cirq, gs, it, False)
+    ctx.cov['circuit_op_membership'] = ctx.cov.get('circuit_op_membership', 0) + 1
+    ctx.cov['circuit_op_membership_accepted'] = ctx.cov.get('circuit_op_membership_accepted', 0) + (1 if want else 0)
+    if (ans_in is True) == want and (ans_val is True) == want:
+        return False
+    flat = stands_for(cirq, it)
+    shown = ', '.join(show_op(cirq, o) for o in flat[:4]) + (f', ... {len(flat) - 4} more' if len(flat) > 4 else '')
+    if not flat:
+        tail = 'which stands for no operation at all, so a gateset that unrolls circuit operations must accept it'
+    elif want:
+        tail = (f'which stands for [{shown}], each of which the gateset accepts on its own: validation must judge the mapped circuit (parameter resolver, '
+                'repetitions / inversion, qubit map applied), not the raw body')
+    else:
+        tail = f'which stands for [{shown}], of which {show_op(cirq, why)} is not accepted by the gateset'
+    r = ctx.violation(f'membership:circuit-op:{"refused" if want else "accepted"}{"" if flat else ":zero-repetitions"}',
+                      (f'gateset {gname}: `op in gateset` -> {ans_in}, gateset.validate(op) -> {ans_val} for op = {show_op(cirq, it)}, {tail}')[:700],
+                      dict(kind='cop_membership', gateset=gname, op_json=cirq.to_json(it), op=show_op(cirq, it), cirq_answer=f'in={ans_in} validate={ans_val}', reference=want))
+    return 'known' if r == 'known' else 'new'
+
+
 def membership_stream(ctx, mods, n_rounds):
-    """Cirq's `x in gateset`, `gateset.validate(x)` and `x in family` against the model, for every item x family/gateset (both answers occur)."""
+    """Cirq's `x in gateset`, `gateset.validate(x)` and `x in family` against the model, for every item x family/gateset (both answers occur).
+    CircuitOperations carrying parameter resolvers / repetitions / qubit maps / nesting are also judged by the reference rule on the real objects."""
     cirq = mods['cirq']
     rng = ctx.rng
     gsets = {t: make_target(mods, t) for t in TARGETS}
     gsets.update(extra_gatesets(mods))
+    q = cirq.LineQubit.range(8)
     shards = []
     for rnd in range(n_rounds):
         items = membership_items(mods, rng)
+        grid = circuit_op_grid(mods, rng, q[:3], q[4:7], full=rnd == 1)
+        cop_ids = {id(it): form for form, _, it in grid}
+        items = items + [it for _, _, it in grid]
         for gname, gs in gsets.items():
             d = Describer(cirq)
             try:
@@ -687,42 +1057,57 @@ def membership_stream(ctx, mods, n_rounds):
             fams = sorted(gs.gates, key=repr)
             for it in items:
                 is_op = isinstance(it, cirq.Operation)
-                try:
-                    ans_in = it in gs
-                except AssertionError as e:
-                    ans_in = 'AssertionError'
-                if is_op:
-                    try:
-                        ans_val = gs.validate(it)
-                    except AssertionError:
-                        ans_val = 'AssertionError'
-                fam = rng.choice(fams) if fams else None
+                form = cop_ids.get(id(it))
+                ans_in = answer(lambda: it in gs)
+                ans_val = answer(lambda: gs.validate(it)) if is_op else None
+                for a in (ans_in, ans_val):
+                    if isinstance(a, str):
+                        report_membership_raise(ctx, cirq, gname, it, a)
+                        break
+                fam = rng.choice(fams) if fams and (form is None or rng.random() < 0.1) else None
                 acc = ans_in is True
-                ctx.count('membership:' + gname, [gname, repr(it)[:300]], True,
-                          sample=dict(gateset=gname, item=repr(it)[:100], accepted=ans_in) if rng.random() < 0.02 else None)
+                ctx.count('membership:' + gname + (':circuit-op' if form else ''), [gname, repr(it)[:300] if form is None else show_op(cirq, it)], True,
+                          sample=dict(gateset=gname, item=repr(it)[:100] if form is None else show_op(cirq, it)[:160], accepted=ans_in) if rng.random() < 0.02 else None)
+                flagged = form is not None and judge_circuit_op(ctx, cirq, gname, gs, it, ans_in, ans_val)
                 if is_op:
-                    rows.append(f'Bool.eqb (op_in_gateset GS {d.op(it)}) {"true" if acc else "false"} && Bool.eqb (validate_op GS {d.op(it)}) {"true" if ans_val is True else "false"}')
-                    meta.append((gname, it, f'in={ans_in} validate={ans_val}'))
+                    rows.append(f'(let o := {d.op(it)} in Bool.eqb (op_in_gateset GS o) {"true" if acc else "false"} && Bool.eqb (validate_op GS o) {"true" if ans_val is True else "false"})')
+                    meta.append((gname, it, f'in={ans_in} validate={ans_val}', flagged))
                 else:
                     gd = d.gate(it)
                     rows.append(f'Bool.eqb (gateset_contains_gate GS {gd} (IGate {gd})) {"true" if acc else "false"}')
-                    meta.append((gname, it, f'in={ans_in}'))
-                if fam is not None and (not is_op or it.gate is not None or True):
-                    try:
-                        fans = it in fam
-                    except Exception as e:
-                        fans = type(e).__name__
+                    meta.append((gname, it, f'in={ans_in}', False))
+                if fam is not None:
+                    fans = answer(lambda: it in fam)
                     rows.append(f'Bool.eqb (family_contains {d.family(fam)} {d.item(it)}) {"true" if fans is True else "false"}')
-                    meta.append((gname + ':family:' + type(fam).__name__, it, f'{fam!r} contains -> {fans}'))
+                    meta.append((gname + ':family:' + type(fam).__name__, it, f'{fam!r} contains -> {fans}', False))
                     ctx.count('membership:family', [repr(fam), repr(it)[:300]], True)
             shards.append((gname, f'Definition GS := {gterm}.\nDefinition checks : list bool := [\n' + ';\n'.join(rows) + '].\nEval vm_compute in failing (fun b => b) checks.\n', meta))
+        # gatesets outside the Coq model (FSimGateFamily): the reference rule on the real objects only
+        for gname, gs in fsim_gatesets(mods).items():
+            for form, _, it in grid:
+                ans_in, ans_val = answer(lambda: it in gs), answer(lambda: gs.validate(cirq.Circuit(it)))
+                ctx.count('membership:' + gname + ':circuit-op', [gname, show_op(cirq, it)], True)
+                for a in (ans_in, ans_val):
+                    if isinstance(a, str):
+                        report_membership_raise(ctx, cirq, gname, it, a)
+                        break
+                judge_circuit_op(ctx, cirq, gname, gs, it, ans_in, ans_val)
     outs = coq.coq_eval_many([(f'c07m_{ctx.seed}_{i}', GS_PRE + text) for i, (_, text, _) in enumerate(shards)], workers=12)
     for (gname, _, meta), out in zip(shards, outs):
-        for idx in coq.parse_nat_list(coq.parse_evals(out)[0]):
-            where, it, ans = meta[idx]
+        failing = set(coq.parse_nat_list(coq.parse_evals(out)[0]))
+        for idx, (where, it, ans, flagged) in enumerate(meta):
+            if flagged and idx not in failing:
+                ctx.mark_broken('correspondence:membership-reference', f'{where}: the reference rule refutes Cirq\'s answer ({ans}) for {show_op(cirq, it)} but the Coq model agrees with it')
+        for idx in sorted(failing):
+            where, it, ans, flagged = meta[idx]
+            if flagged:
+                if flagged == 'new':
+                    ctx.mark_broken('correspondence:membership', f'{where}: {show_op(cirq, it)}'[:300])
+                continue
             kind = type(it.gate).__name__ if isinstance(it, cirq.Operation) and it.gate is not None else type(it.untagged if isinstance(it, cirq.Operation) else it).__name__
+            shown = show_op(cirq, it) if isinstance(it, cirq.Operation) and isinstance(it.untagged, cirq.CircuitOperation) else repr(it)[:200]
             ctx.disagree('correspondence:membership', f'{where}: {it!r}'[:300], f'membership:{where}:{kind}',
-                         f'membership of {repr(it)[:200]} in gateset/family {where} differs from the documented rule (Cirq answers {ans})',
+                         f'membership of {shown} in gateset/family {where} differs from the documented rule (Cirq answers {ans})',
                          dict(kind='membership', gateset=where, item=repr(it)[:400], cirq_answer=ans))
 
 
@@ -1289,7 +1674,7 @@ def proto_device(mods, qubits, pairs, gate_names):
     return cg.GridDevice.from_proto(spec)
 
 
-def device_circuits(mods, rng, kind, gateset, qubit_set, pairset, cand, seen_ops, big):
+def device_circuits(mods, rng, kind, gateset, qubit_set, pairset, cand, seen_ops, big, cops=()):
     """Operation lists for validate_circuit.  For every family of the gateset: a gate the family takes, placed on the device, in
     every tag variant the gateset talks about (plus none and an unrelated tag) and on other qubits; all ordered pairs of the
     variants (the same gate acceptable in one form and not in another, in both orders), some with a third operation in front.
@@ -1333,6 +1718,11 @@ def device_circuits(mods, rng, kind, gateset, qubit_set, pairset, cand, seen_ops
                 out.append([rng.choice(seen_ops), v1, v2])
             else:
                 out.append([v1, v2])
+    # CircuitOperations (parameter resolver, repetitions, qubit map, nesting): alone, behind an operation judged on its own, two of them
+    plain = [o for o in seen_ops if o.gate is not None]
+    for i, cop in enumerate(cops if big else rng.sample(list(cops), min(12, len(cops)))):
+        r = i % 3
+        out.append([cop] if r == 0 or not plain else ([rng.choice(plain), cop] if r == 1 else [cop, rng.choice(list(cops)), rng.choice(plain)]))
     for _ in range(24 if big else 12):
         if seen_ops:
             seq = [rng.choice(seen_ops) for _ in range(rng.randint(2, 5))]
@@ -1347,13 +1737,52 @@ def device_circuits(mods, rng, kind, gateset, qubit_set, pairset, cand, seen_ops
     return out
 
 
+def device_circuit_ops(mods, rng, qubit_set, pairset, cand, count=None):
+    """CircuitOperations for a device: the grid of parameter-resolved bodies (circuit_op_grid) placed on a device pair and a
+    further device qubit; the qubit-map form writes the body on qubits outside the device and maps it onto the device.  Variants:
+    mapped off the device, onto a pair that is not allowed, reversed pair.  count: a sample of that size that always contains the
+    plain resolver form at the canonical value of every body."""
+    cirq = mods['cirq']
+    on = sorted(qubit_set)
+    pairs = sorted(sorted(p) for p in pairset)
+    pair = list(rng.choice(pairs)) if pairs else on[:2]
+    if rng.random() < 0.5:
+        pair = pair[::-1]
+    rest = [x for x in on if x not in pair]
+    qubits = pair + rest[:1]
+    off = [c for c in cand if c not in qubit_set]
+    spare = (off + rest[1:] + on)[:3]
+    grid = circuit_op_grid(mods, rng, qubits, spare)
+    if count is not None:
+        must = [g for g in grid if g[0] == 'resolver' and g[1] == 0]
+        grid = must + rng.sample([g for g in grid if g not in must], max(0, count - len(must)))
+    out = []
+    non_pairs = [(a, b) for a in on for b in on if a < b and frozenset((a, b)) not in pairset]
+    for i, (form, vi, cop) in enumerate(grid):
+        out.append(cop)
+        r = (i + rng.randrange(3)) % 9
+        u = cop.untagged
+        if r == 0 and off:
+            out.append(u.with_qubit_mapping({pair[0]: off[0]}))                      # mapped off the device
+        elif r == 1 and non_pairs and len(u.qubits) == 2:
+            out.append(u.with_qubit_mapping(dict(zip(pair, rng.choice(non_pairs)))))      # mapped onto a pair that is not allowed
+        elif r == 2 and len(u.qubits) == 2:
+            out.append(u.with_qubit_mapping({pair[0]: pair[1], pair[1]: pair[0]}))
+    return out
+
+
 def spec_accepts(cirq, kind, op, gateset, qubit_set, pairs, variadic, cgs=None):
     """The property's statement, evaluated on the real objects: in the gateset, on the device's qubits, on allowed pairs."""
     if kind in ('aqt', 'pasqal', 'pasqal_virtual') and not isinstance(op, cirq.GateOperation):
         return False, 'not a gate operation'
     if kind == 'ionq' and op.gate is None:
         return False, 'no gate'
-    in_gs = (op.gate in gateset) if kind == 'aqt' else (op in gateset)
+    if op.gate is None:
+        # a (tagged) CircuitOperation is read as the operations it stands for: its mapped circuit (qubit map, parameter resolver,
+        # repetitions / inversion applied) must consist of operations of the gateset, and the gateset must unroll circuit operations
+        in_gs, _ = reference_accepts(cirq, gateset, op, False)
+    else:
+        in_gs = (op.gate in gateset) if kind == 'aqt' else (op in gateset)
     if not in_gs:
         return False, 'not in gateset'
     if any(q not in qubit_set for q in op.qubits):
@@ -1375,7 +1804,7 @@ def device_stream(ctx, mods, n_specs, ops_per_spec):
     fixed = fixed_grid_gatesets(mods)
     protos = proto_gate_lists(rng)
     specs = [(['grid', 'grid', 'grid', 'aqt', 'pasqal', 'pasqal_virtual', 'ionq'][si % 7], None) for si in range(n_specs)]
-    specs += [('grid', ('gateset', g)) for g in fixed] + [('grid', ('proto', names)) for names in protos]
+    specs += [('grid', ('gateset', g)) for g in fixed] + [('grid', ('proto', names)) for names in protos] + [('grid', ('named', 'Sycamore'))]
     for kind, variant in specs:
         qt = QubitTable()
         cgs = None
@@ -1388,7 +1817,12 @@ def device_stream(ctx, mods, n_specs, ops_per_spec):
             if variant is not None and not pairs and adj:
                 pairs = [rng.choice(adj)]
             try:
-                if variant is None:
+                if variant is not None and variant[0] == 'named':
+                    # a real device object of the vendor package; operations are drawn on a corner of it and on qubits outside it
+                    device = getattr(cg, variant[1])
+                    corner = sorted(device.metadata.qubit_set)[:7]
+                    allq = corner + [cirq.GridQubit(20, 20), cirq.GridQubit(21, 20)]
+                elif variant is None:
                     gateset = cirq.Gateset(*rng.sample(pool, rng.randint(3, 9)), unroll_circuit_op=rng.random() < 0.7)
                     device = cg.GridDevice(cirq.GridDeviceMetadata(qubit_pairs=pairs, gateset=gateset, all_qubits=dq))
                 elif variant[0] == 'gateset':
@@ -1434,7 +1868,7 @@ def device_stream(ctx, mods, n_specs, ops_per_spec):
             gterm = d.gateset(gs_obj)
             rterm = f'(PairsIn {d.gateset(cgs)})' if rule == 'PairsIn' else rule
         except Unmodelled as e:
-            if variant is not None and variant[0] == 'proto':
+            if variant is not None and variant[0] in ('proto', 'named'):
                 # a device specification naming gates whose families (FSimGateFamily) the membership model does not describe: the
                 # statement is still decided on the real objects below, only the recomputation inside Coq is left out
                 model, gterm, rterm = False, 'None', rule
@@ -1447,11 +1881,20 @@ def device_stream(ctx, mods, n_specs, ops_per_spec):
         rows, meta = [], []
         acc_ops, seen_ops = [], []
         dev_rec = dict(kind='device', device=kind, qubits=repr(sorted(qubit_set)), pairs=repr(sorted(map(sorted, pairset))), gateset=repr(gs_obj),
-                       unroll=bool(gs_obj._unroll_circuit_op), proto_gates=list(variant[1]) if variant is not None and variant[0] == 'proto' else None)
+                       unroll=bool(gs_obj._unroll_circuit_op), proto_gates=list(variant[1]) if variant is not None and variant[0] == 'proto' else None,
+                       named=variant[1] if variant is not None and variant[0] == 'named' else None)
         dop_of = lambda op: (f'(mkDop {(f"(OGate {d.gate(op.gate)} [])" if kind == "aqt" and op.gate is not None else d.op(op))} '
                              f'{gates.nlist([qt(q) for q in op.qubits])} {"true" if isinstance(op, cirq.GateOperation) else "false"})')
-        for _ in range(ops_per_spec):
-            op = device_op_pool(mods, rng, cand)
+        if kind == 'grid':
+            # CircuitOperations with parameter resolvers / repetitions / qubit maps / nesting on the device (whole grid for the fixed specs)
+            cops = device_circuit_ops(mods, rng, qubit_set, pairset, cand, count=None if variant is not None else 30)
+        else:
+            cops = device_circuit_ops(mods, rng, qubit_set, pairset, cand, count=0)[:6]
+        cop_ids = {id(c) for c in cops}
+        for op in [None] * ops_per_spec + cops:
+            if op is None:
+                op = device_op_pool(mods, rng, cand)
+            is_cop = id(op) in cop_ids
             if kind in ('pasqal', 'pasqal_virtual') and isinstance(op.gate, cirq.MeasurementGate) and op.gate.invert_mask != ():
                 continue
             try:
@@ -1462,12 +1905,24 @@ def device_stream(ctx, mods, n_specs, ops_per_spec):
             except Exception as e:
                 got = type(e).__name__
             want, why = spec_accepts(cirq, kind, op, gs_obj, qubit_set, pairset, (cirq.MeasurementGate, cirq.WaitGate), cgs)
-            ctx.count(f'device:{kind}', [kind, repr(sorted(qubit_set)), repr(sorted(map(sorted, pairset))), repr(gs_obj)[:400], repr(op)[:300]], True,
-                      sample=dict(device=kind, op=repr(op)[:100], accepted=got, spec=why) if rng.random() < 0.03 else None)
+            ctx.count(f'device:{kind}' + (':circuit-op' if is_cop else ''), [kind, repr(sorted(qubit_set)), repr(sorted(map(sorted, pairset))), repr(gs_obj)[:400],
+                                                                          show_op(cirq, op) if is_cop else repr(op)[:300]], True,
+                      sample=dict(device=kind, op=show_op(cirq, op)[:160] if is_cop else repr(op)[:100], accepted=got, spec=why) if rng.random() < 0.03 else None)
+            if is_cop:
+                ctx.cov['device_circuit_ops_accepted'] = ctx.cov.get('device_circuit_ops_accepted', 0) + (1 if want else 0)
             if got is not want:
                 clause = why.replace(' ', '-')
-                ctx.violation(f'device:{kind}:{"accepts" if got is True else "rejects"}:{clause}',
-                              f'{kind} device validate_operation({repr(op)[:160]}) {"accepts" if got is True else "rejects (" + str(got) + ")"} although the operation is: {why}',
+                gate_less = op.gate is None and isinstance(op.untagged, cirq.CircuitOperation)
+                leaves = stands_for(cirq, op) if gate_less else [op]
+                if isinstance(got, str) and not want and any(cirq.is_parameterized(o) for o in leaves):
+                    sig = SYMBOLIC_RAISES
+                else:
+                    sig = f'device:{kind}:{"circuit-op:" if gate_less else ""}{"accepts" if got is True else "rejects"}:{clause}'
+                shown = (f'{show_op(cirq, op)}, which stands for [{", ".join(show_op(cirq, o) for o in leaves[:4])}{", ..." if len(leaves) > 4 else ""}] on qubits {show_qs(op.qubits)}'
+                         if gate_less else repr(op)[:160])
+                ctx.violation(sig, (f'{variant[1] if variant is not None and variant[0] == "named" else kind} device validate_operation({shown}) '
+                                    f'{"accepts" if got is True else "rejects (" + str(got) + ")"} although the operation is: {why}'
+                                    + (' (every operation of its mapped circuit is in the gateset; the device qubits and pairs are respected)' if gate_less and want else ''))[:700],
                               dict(dev_rec, radius=radius if kind == 'pasqal_virtual' else None, op=repr(op)))
             seen_ops.append(op)
             if not model:
@@ -1480,7 +1935,7 @@ def device_stream(ctx, mods, n_specs, ops_per_spec):
                 acc_ops.append((op, dop))
         if kind in ('grid', 'ionq'):
             # whole circuits: accepted exactly when every operation on its own is (whatever came before it in the circuit)
-            for ops_c in device_circuits(mods, rng, kind, gs_obj, qubit_set, pairset, cand, seen_ops, big=variant is not None):
+            for ops_c in device_circuits(mods, rng, kind, gs_obj, qubit_set, pairset, cand, seen_ops, big=variant is not None, cops=cops):
                 wants = [spec_accepts(cirq, kind, o, gs_obj, qubit_set, pairset, (cirq.MeasurementGate, cirq.WaitGate), cgs) for o in ops_c]
                 want = all(w for w, _ in wants)
                 circ = cirq.Circuit()
@@ -1497,11 +1952,15 @@ def device_stream(ctx, mods, n_specs, ops_per_spec):
                 ctx.count(f'device:{kind}:circuit', [kind, repr(sorted(qubit_set)), repr(sorted(map(sorted, pairset))), repr(gs_obj)[:400], repr(ordered)[:600]], len(ordered) >= 2,
                           sample=dict(device=kind, ops=[repr(o)[:80] for o in ordered], accepted=got, spec=want) if rng.random() < 0.005 else None)
                 if got is not want:
-                    culprit = next((f'{o!r} is: {why}' for o, (w, why) in zip(ops_c, wants) if not w), 'every operation is acceptable on its own')
+                    culprit = next((f'{show_op(cirq, o) if o.gate is None else repr(o)} is: {why}' for o, (w, why) in zip(ops_c, wants) if not w), 'every operation is acceptable on its own')
                     clause = next((why for w, why in wants if not w), 'all-acceptable').replace(' ', '-')
-                    ctx.violation(f'device:{kind}:circuit:{"accepts" if got is True else "rejects"}:{clause}',
-                                  (f'{kind} device validate_circuit {"accepts" if got is True else "rejects (" + str(got) + ")"} the circuit {[repr(o)[:120] for o in ordered]} '
-                                   f'although {culprit}')[:600],
+                    has_cop = any(o.gate is None and isinstance(o.untagged, cirq.CircuitOperation) for o in ordered)
+                    sym = any(cirq.is_parameterized(x) for o in ordered for x in (stands_for(cirq, o) if o.gate is None and isinstance(o.untagged, cirq.CircuitOperation) else [o]))
+                    ctx.violation(SYMBOLIC_RAISES if isinstance(got, str) and not want and sym else
+                                  f'device:{kind}:circuit:{"circuit-op:" if has_cop else ""}{"accepts" if got is True else "rejects"}:{clause}',
+                                  (f'{kind} device validate_circuit {"accepts" if got is True else "rejects (" + str(got) + ")"} the circuit '
+                                   f'{[show_op(cirq, o) if has_cop else repr(o)[:120] for o in ordered]} although {culprit}'
+                                   + (' (a CircuitOperation stands for its mapped circuit: parameter resolver, repetitions / inversion, qubit map applied)' if has_cop and want else ''))[:700],
                                   dict(dev_rec, ops=[repr(o) for o in ordered], moments=repr(circ)))
                 if model and len(rows) < 240:
                     rows.append(f'Bool.eqb (device_accepts_circuit DEV [{"; ".join(dop_of(o) for o in ordered)}]) {"true" if want else "false"}')
@@ -1626,6 +2085,13 @@ def run(ctx):
                 'family at exponents +-1, +-0.5 (zero shift), PhasedISwap, FSim at the iSWAP/sqrt-iSWAP/CZ/Sycamore angles, givens, ms, SYC, CSWAP for every target on every run; '
                 'the remaining special exponents, shifted forms, PhasedFSim, Pauli interactions, controlled gates, permutations for drawn targets; placed forward, reversed, '
                 'beside a spectator qubit or next to a no-compile tagged native operation. '
+                'compile sub-circuit: for every target a single CircuitOperation whose body is one operation (H, sqrt(X) and one more one-qubit gate in rotation; two two-qubit gates in rotation) '
+                'with repetitions 2/3/5/0, -1, -2, a qubit map (body written on another qubit of the circuit), nesting (repetitions outside, inside, with a map), a parameter resolver, a tag, '
+                'a two-moment body; standing alone in the circuit, alone on its qubit beside other gates, with a unitary neighbour, next to a no-compile operation; fixed for every VERIF_SEED. '
+                'membership circuit-op: symbolic bodies X/Y/Z/H/PhasedX/PhasedXZ/CZ/CNOT/ISWAP/SWAP/XX/ZZ/FSim/PhasedFSim/CCZ/CCX under resolvers to 1, 0.5, -0.5, 2, 3, 0.25, 0 '
+                '(FSim: Sycamore, sqrt-iSWAP(+inv), CZ, generic angles) in 15 forms (plain, repetitions, inversion, zero repetitions, qubit map, outer resolver, two-level renaming, tags, '
+                'beside a native operation, with_params, unused resolver, nested inversion, unresolved, partly resolved) x every gateset; the same grid on every GridDevice spec '
+                '(on a device pair, written off the device and mapped onto it, mapped off it, onto a forbidden pair) and on cirq_google.Sycamore, through validate_operation and validate_circuit. '
                 'membership: ~400 gates/operations (subclass instances, exponents modulo the period, tags, CircuitOperations, gate-less operations) x '
                 '25 gatesets and one random family each; both answers occur. route: line/ring/grid/tree/tree+chords graphs with 2-9 nodes, 35% directed, '
                 'HardCodedInitialMapper and a user-written AbstractInitialMapper whose placements are supersets of the circuit\'s qubits (spare logical qubits the circuit never uses, '
@@ -1648,6 +2114,7 @@ def run(ctx):
     membership_stream(ctx, mods, n)
     compile_stream(ctx, mods, checks, 8 * n)
     lone_gate_stream(ctx, mods, checks, full=ctx.tier != 'quick')
+    sub_circuit_stream(ctx, mods, checks, full=ctx.tier != 'quick')
     routing_stream(ctx, mods, checks, 90 * n)
     mapping_manager_stream(ctx, mods, 60 * n)
     device_stream(ctx, mods, 28 * n, 40)
@@ -1675,7 +2142,9 @@ def replay_device(mods, data):
     op = py_eval(mods, data['op']) if ops is None else None
     cgs = None
     if kind == 'grid':
-        if data.get('proto_gates'):
+        if data.get('named'):
+            device = getattr(cg, data['named'])
+        elif data.get('proto_gates'):
             device = proto_device(mods, qubits, [tuple(sorted(p)) for p in pairs], data['proto_gates'])
         else:
             gateset = py_eval(mods, data['gateset'])
@@ -1720,6 +2189,18 @@ def replay(ctx, data):
         return False
     if data.get('kind') == 'device':
         return replay_device(mods, data)
+    if data.get('kind') == 'cop_membership':
+        cirq = mods['cirq']
+        gsets = {t: make_target(mods, t) for t in TARGETS}
+        gsets.update(extra_gatesets(mods))
+        gsets.update(fsim_gatesets(mods))
+        gs = gsets[data['gateset']]
+        op = cirq.read_json(json_text=data['op_json'])
+        ans_in, ans_val = answer(lambda: op in gs), answer(lambda: gs.validate(op))
+        want, why = reference_accepts(cirq, gs, op, False)
+        print(f'replay: gateset {data["gateset"]}: `op in gateset` -> {ans_in}, validate -> {ans_val} for {show_op(cirq, op)}; it stands for '
+              f'[{", ".join(show_op(cirq, o) for o in stands_for(cirq, op)[:6])}]; the rule says {want}' + (f' ({show_op(cirq, why)} is not accepted)' if why is not None else ''))
+        return (ans_in is True) == want and (ans_val is True) == want
     if data.get('kind') in ('membership', 'mapping_manager'):
         print('replay: re-run `VERIF_SEED=%s ./check C07` (the case is one row of a model evaluation): %s' % (data.get('seed'), data.get('item') or data.get('swaps')))
         return False
